@@ -2,8 +2,8 @@
 
 A random program (tiny structured language: sequences, bounded loops, try/except/finally, awaits of
 harness Deferreds X_k, yields of plain values, calls of nested functions, return - also inside
-finally -, raise, break) is compiled from ONE AST to Python source three ways: generator functions
-for inlineCallbacks, `async def` functions for ensureDeferred, and plain synchronous functions in
+finally -, raise, break, "cancel the root Deferred now" inside nested functions) is compiled from
+ONE AST to Python source three ways: generator functions for inlineCallbacks, `async def` functions for ensureDeferred, and plain synchronous functions in
 which "await X_k" looks the outcome of X_k up.  Nested calls choose per call site how the callee is
 run (inlineCallbacks Deferred, raw generator object, coroutine object, ensureDeferred(coroutine),
 native await).
@@ -17,21 +17,35 @@ value/failure the harness fired it with, or, if a cancellation reached it first,
 produced (CancelledError, a value, a failure); (2) the synchronous compilation replayed with those
 outcomes yields exactly the same note trace and the same final value / uncaught exception; (3) the
 returned Deferred fired exactly once; (4) cancel() of the returned Deferred while the function is
-suspended at await k reached X_k and no other X; cancel() after completion reaches nothing.
+suspended at await k reached X_k and no other X; cancel() after completion reaches nothing;
+(5) a cancel() of the root Deferred issued from inside the body of a nested function while the root
+function is waiting on that nested function (re-entrant: the awaited function is running, nothing
+un-fired is awaited) cancels no un-fired X, and the run still satisfies (1)-(3).
+
+"Hot" harness Deferreds: X_k may carry a callback that first fires the Deferred the function is
+waiting on (the function is resumed and may await X_k while X_k is running that callback) and then
+returns another value / raises / returns a pending Deferred; X_k's outcome is what a callback added
+at that moment would see, i.e. what the running callback produces - never its input.
 
 Guards: programs never return a Deferred, never use returnValue, never re-await a Deferred (each
 dynamic await gets its own X_k), never yield a fired-and-consumed Deferred; a function that
 swallows CancelledError and carries on is legitimate - the final outcome is then whatever the
-synchronous replay produces; an X_k fired before it is awaited simply behaves as pre-fired.
+synchronous replay produces; the re-entrant cancel node is executed only
+while the root function's frame is not on the Python stack (root really waiting - cancelling a
+function that is running is outside the statement) and is a plain note in the synchronous replay;
+cancel() of an X that already has its outcome is a no-op and not judged; an X_k fired before it is awaited simply behaves as pre-fired.
 """
 import hashlib
+import sys
 
 LEVEL = "exploration"
 ENGINE = "core"
 TECHNIQUE = "runtime monitoring: the same program compiled synchronously and replayed with the observed outcomes is the oracle"
 RULE = ("random ASTs (<= 3 functions, <= 9 static awaits, loops <= 3 iterations, try/except/finally nesting <= 3) "
         "compiled three ways; 10 harness Deferreds per run, each pre-fired or fired later (value or failure; plain or "
-        "chained to an inner Deferred; 4 canceller behaviours) in a scheduler-chosen order; per program and flavour "
+        "chained to an inner Deferred, or 'hot': carrying a callback that resumes the waiting function and then changes "
+        "the result / raises / returns a pending Deferred; 4 canceller behaviours) in a scheduler-chosen order; 40% of the "
+        "multi-function programs contain re-entrant cancel-the-root nodes in nested functions; per program and flavour "
         "(inlineCallbacks / ensureDeferred): one run without cancellation, one run per suspension point with cancel() "
         "injected there, one run per suspension point with a second cancel() at a later suspension point, and one "
         "cancel() after completion.  A case is distinct by (program source, plan, order, flavour, cancellation points); "
@@ -43,10 +57,17 @@ FLOORS = {"runs_compared_with_sync_replay": 5000, "await_observations_checked": 
           "cancellations_injected_while_suspended": 2000, "second_cancellations": 300, "cancel_observed_as_cancellederror": 500,
           "cancel_observed_as_canceller_value": 100, "cancel_swallowed_then_continued": 100, "nested_calls": 1000,
           "cancel_reached_through_nested_function": 100, "returns_inside_finally": 50, "prefired_awaits": 1000,
-          "failures_thrown_into_function": 1000, "cancel_after_completion_checks": 500}
+          "failures_thrown_into_function": 1000, "cancel_after_completion_checks": 500,
+          "awaits_of_deferred_running_its_callback_value": 500, "awaits_of_deferred_running_its_callback_raise": 500,
+          "awaits_of_deferred_running_its_callback_defer": 500, "hot_callback_resumed_the_waiting_function": 2000,
+          "reentrant_cancels_while_root_waiting": 2000,
+          "reentrant_cancel_then_nested_function_finished_without_suspending": 500}
 READY = True
 
 M = 10
+# narrow key of a defect found on the unchanged tree (findings/C05-<key>.md): `await d` inside a coroutine while d is
+# running its own callback chain returns the INPUT of the callback in progress (Deferred.__await__ reads d.result)
+AWAIT_RUNNING = "coroutine-await-of-running-deferred-sees-intermediate-result"
 CMODES = ("default", "noop", "succ", "fail")
 _T = {}
 
@@ -85,6 +106,8 @@ class Gen:
         self.awaits = 0
         self.size = 0
         self.nfuncs = rng.choice((1, 1, 2, 2, 3))
+        # some programs let nested functions cancel the ROOT Deferred from inside their bodies
+        self.reentrant = self.nfuncs > 1 and rng.random() < 0.4
 
     def new_site(self):
         self.site += 1
@@ -106,6 +129,8 @@ class Gen:
             c = r.random()
             if depth == 0 and c < 0.36 and r.random() < 0.4:
                 c = 0.6             # top level: prefer try blocks to bare awaits
+            if self.reentrant and fn > 0 and r.random() < 0.12:
+                return ("cancelroot", self.new_site())
             if c < 0.36:
                 if self.awaits >= 9:
                     continue
@@ -173,7 +198,7 @@ def emit(out, stmts, ind, fl, loopdepth=0):
         op = s[0]
         if op == "await":
             src = "H.S(k)" if fl == "sync" else aw + "H.X(k)"
-            out += [ind + "k = H.A(%d)" % s[1], ind + "try:", ind + "    r = " + src,
+            out += [ind + "k = H.A(%d, %r)" % (s[1], fl[0]), ind + "try:", ind + "    r = " + src,
                     ind + "except Exception as e:", ind + "    H.N(k, 'x', e)", ind + "    raise",
                     ind + "else:", ind + "    H.N(k, 'v', r)"]
         elif op == "plain":
@@ -215,6 +240,8 @@ def emit(out, stmts, ind, fl, loopdepth=0):
             out.append(ind + "break")
         elif op == "pt":
             out.append(ind + "H.P(('pt', %d))" % s[1])
+        elif op == "cancelroot":
+            out.append(ind + "H.C(%d)" % s[1])
 
 
 def compile_program(prog):
@@ -253,6 +280,12 @@ class H:
         self.calls_open = 0
         self.outcome = outcomes if outcomes is not None else [None] * M  # (ok, token, exception object)
         self.xs, self.ys = [], []
+        self.aflav = {}               # dynamic await -> flavour of the awaiting function ('g'/'c'/'s')
+        self.run = None               # the AsyncRun (async mode)
+        self.root = None              # the Deferred returned by the root function
+        self.awaited_in_relay = set() # X_k awaited while X_k was running its own callback
+        self.reentrant_pending = False
+        self.reentrant_problem = None
 
     def tok(self, e):
         if isinstance(e, Boom):
@@ -262,17 +295,56 @@ class H:
         return ("exc", type(e).__name__, str(e)[:80])
 
     # called by generated code
-    def A(self, site):
+    def A(self, site, flavour):
         k = self.next_k
         if k >= M:
             raise Boom(("overflow",))
         self.next_k += 1
         self.notes.append(("await", site, k))
+        self.aflav[k] = flavour
         self.cur = k
         return k
 
     def X(self, k):
+        run = self.run
+        if run.in_relay == k:
+            self.awaited_in_relay.add(k)
+            run.ctx.count("awaits_of_deferred_running_its_callback_%s" % self.plan[k]["hot"])
+        if self.outcome[k] is None:
+            self.reentrant_pending = False      # about to suspend
         return self.xs[k]
+
+    def C(self, site):
+        """Program node: cancel the ROOT returned Deferred from inside a nested function's body.
+
+        Performed only while the root function is waiting (its frame is not executing): that is the
+        statement's domain.  The cancellation is forwarded down the chain of waiting functions to the
+        one that is running right now, where nothing is awaited any more - so no un-fired X may be
+        cancelled by it and the program carries on exactly as the synchronous replay (which only
+        records the note)."""
+        self.notes.append(("cancelroot", site))
+        run = self.run
+        if self.mode != "async" or self.root is None or run.fired:
+            return
+        f = sys._getframe(1)
+        while f is not None:
+            if f.f_code in self.root_codes:
+                run.ctx.count("reentrant_cancel_skipped_root_running")
+                return
+            f = f.f_back
+        run.ctx.count("reentrant_cancels_while_root_waiting")
+        before = run.cancel_counts()
+        unset = [j for j in range(M) if self.outcome[j] is None]
+        try:
+            self.root.cancel()
+        except BaseException as e:  # noqa
+            self.reentrant_problem = ("reentrant-cancel-raised", "cancel() of the waiting root Deferred from inside a nested function raised", {"error": repr(e)[:300]})
+            return
+        after = run.cancel_counts()
+        reached = [j for j in unset if after[j] != before[j]]
+        if reached and self.reentrant_problem is None:
+            self.reentrant_problem = ("reentrant-cancel-reached-unawaited-deferred", "a cancel() issued while the awaited nested function was running cancelled an X nobody awaits", {"reached": reached})
+        self.reentrant_pending = True
 
     def S(self, k):
         o = self.outcome[k]
@@ -289,6 +361,9 @@ class H:
 
     def P(self, note):
         self.notes.append(note)
+        if self.reentrant_pending and note[0] in ("callv", "callx"):
+            self.reentrant_pending = False
+            self.run.ctx.count("reentrant_cancel_then_nested_function_finished_without_suspending")
 
     def calls_open_at(self, k):
         """Is dynamic await k nested inside a call (from the note trace)?"""
@@ -311,14 +386,24 @@ def make_plan(rng):
         plan.append({"pre": rng.random() < (0.15 if style < 0.5 else 0.5 if style < 0.8 else 0.0),
                      "ok": rng.random() < okp,
                      "cmode": rng.choice(CMODES) if rng.random() < 0.6 else "default",
-                     "chained": rng.random() < 0.2})
+                     "chained": rng.random() < 0.2, "hot": None, "steal": False})
+    if rng.random() < 0.4:
+        # "hot" X_k: carries a callback that first fires the Deferred the function is waiting on (so the
+        # function is resumed, and may await X_k, while X_k is running that callback) and then returns a
+        # different value / raises / returns a pending Deferred.  X_k's outcome is what that callback yields.
+        for k in range(1, M):
+            if rng.random() < 0.4:
+                plan[k].update(hot=rng.choice(("value", "raise", "defer")), steal=rng.random() < 0.75, pre=False, chained=False)
     spread = rng.choice((0.4, 0.4, 2.0, 10.0))
-    order = sorted((k for k in range(M) if not plan[k]["pre"]), key=lambda k: k + rng.uniform(-spread, spread))
+    toks = [k for k in range(M) if not plan[k]["pre"]] + [k for k in range(M) if plan[k]["hot"] == "defer"]
+    order = sorted(toks, key=lambda k: k + rng.uniform(-spread, spread))
     return plan, order
 
 
 def cancel_outcome(h, k):
     mode = h.plan[k]["cmode"]
+    if h.plan[k]["hot"] and not h.run.raw_fired[k]:
+        mode = "default"          # a hot X_k itself has no canceller; its callback is skipped on failure
     if mode == "succ":
         return (True, ("cv", k), None)
     if mode == "fail":
@@ -336,6 +421,8 @@ class AsyncRun:
         self.bad = None
         self.suspensions = 0
         self.cancel_log = []
+        self.raw_fired = [False] * M     # hot X_k: has X_k itself been fired (its callback may then be waiting on Z_k)
+        self.in_relay = None             # k while hot X_k's callback is executing its "fire the awaited one" part
 
     def violation(self, key, what, **extra):
         if self.bad:
@@ -361,7 +448,12 @@ class AsyncRun:
                 y = XD(lambda d, k=k: d.callback(("cv", k)))
             else:
                 y = XD(lambda d, k=k: d.errback(h.outcome[k][2] if h.outcome[k] and isinstance(h.outcome[k][2], Boom) else Boom(("cx?", k))))
-            if p["chained"]:
+            if p["hot"]:
+                x = XD()
+                x.addCallback(self.relay, k)
+                if p["hot"] != "defer":
+                    y = x
+            elif p["chained"]:
                 x = XD()
                 x.callback(None)
                 x.addCallback(lambda _, y=y: y)
@@ -372,8 +464,36 @@ class AsyncRun:
             if p["pre"]:
                 self.fire(k)
 
+    def relay(self, v, k):
+        """Callback carried by hot X_k."""
+        h, ctx = self.h, self.ctx
+        c = h.cur
+        ctx.count("hot_callbacks_run")
+        if not self.fired and self.started and c is not None and c != k and h.outcome[c] is None:
+            ctx.count("hot_callback_resumed_the_waiting_function")
+            self.in_relay = k
+            try:
+                self.fire(c)
+            finally:
+                self.in_relay = None
+        mode = self.plan[k]["hot"]
+        if mode == "value":
+            return ("hot", k)
+        if mode == "raise":
+            raise h.outcome[k][2]
+        return h.ys[k]
+
     def fire(self, k):
+        """Give X_k its (next) firing: hot X_k itself first, then - for 'defer' - the Deferred its callback returned."""
         h, p = self.h, self.plan[k]
+        if p["hot"] and not self.raw_fired[k]:
+            self.raw_fired[k] = True
+            if p["hot"] == "value":
+                h.outcome[k] = (True, ("hot", k), None)
+            elif p["hot"] == "raise":
+                h.outcome[k] = (False, ("boom", ("hotx", k)), Boom(("hotx", k)))
+            h.xs[k].callback(("raw", k))
+            return
         if p["ok"]:
             h.outcome[k] = (True, ("x", k), None)
             h.ys[k].callback(("x", k))
@@ -389,11 +509,15 @@ class AsyncRun:
         ctx, h = self.ctx, self.h
         k = h.cur
         before = self.cancel_counts()
+        unset = [j for j in range(M) if h.outcome[j] is None]
         suspended = not self.fired
         if suspended:
             if k is None or h.outcome[k] is not None:
                 return self.violation("harness-inconsistency", "function suspended but no un-fired X is being awaited", cur=k)
             h.outcome[k] = cancel_outcome(h, k)      # what X_k will turn out to be
+            hot_unfired = bool(self.plan[k]["hot"]) and not self.raw_fired[k]
+            if hot_unfired:
+                self.raw_fired[k] = True
             ctx.count("cancellations_injected_while_suspended")
             if second:
                 ctx.count("second_cancellations")
@@ -407,14 +531,15 @@ class AsyncRun:
         except BaseException as e:  # noqa
             return self.violation("cancel-raised", "cancel() of the returned Deferred raised", error=repr(e)[:300])
         after = self.cancel_counts()
-        reached = [j for j in range(M) if after[j] != before[j]]
+        # cancel() of an X that already has its outcome is a no-op and not judged
+        reached = [j for j in unset if after[j] != before[j]]
         self.cancel_log.append({"awaiting": k if suspended else None, "reached": reached})
         if suspended:
             if k not in reached:
                 return self.violation("cancel-did-not-reach-awaited-deferred", "cancel() while suspended did not call cancel() on the awaited Deferred", awaiting=k, reached=reached)
             if reached != [k]:
                 return self.violation("cancel-reached-other-deferred", "cancel() while suspended cancelled a Deferred that is not the awaited one", awaiting=k, reached=reached)
-            if after[k][1] == before[k][1]:
+            if after[k][1] == before[k][1] and not hot_unfired:
                 return self.violation("cancel-did-not-reach-awaited-deferred", "cancel() did not get through to the Deferred the awaited one is chained to", awaiting=k)
             o = h.outcome[k]
             ctx.count("cancel_observed_as_cancellederror" if o[1] == "CANCELLED" else ("cancel_observed_as_canceller_value" if o[0] else "cancel_observed_as_canceller_failure"))
@@ -428,7 +553,11 @@ class AsyncRun:
     def run(self):
         ctx, h = self.ctx, self.h
         h.reset("async", self.plan)
+        h.run = self
+        h.root_codes = (self.ns["F0_gen"].__code__, self.ns["F0_coro"].__code__)
+        self.started = False
         self.build_inputs()
+        self.started = True
         try:
             if self.fl == "gen":
                 d = self.ns["F0_gend"]()
@@ -437,6 +566,7 @@ class AsyncRun:
         except BaseException as e:  # noqa
             return self.violation("start-raised", "starting the function raised instead of returning a Deferred", error=repr(e)[:300])
         d.addBoth(self.fired.append)
+        h.root = d
         cancels = list(self.cancel_at)
         step = 0
         for k in self.order + [None]:
@@ -454,6 +584,9 @@ class AsyncRun:
             if self.fired or self.bad:
                 break
             if h.outcome[k] is None:
+                c = h.cur
+                if k == c and c + 1 < M and self.plan[c + 1]["steal"] and not self.raw_fired[c + 1] and h.outcome[c + 1] is None:
+                    k = c + 1        # let hot X_{c+1}'s callback fire the awaited X_c
                 try:
                     self.fire(k)
                 except BaseException as e:  # noqa
@@ -464,6 +597,9 @@ class AsyncRun:
             return
         if cancels and cancels[0] >= step and self.fired:      # cancellation after completion
             self.do_cancel(d, False)
+        if h.reentrant_problem:
+            key, what, extra = h.reentrant_problem
+            return self.violation(key, what, **extra)
         if not self.fired:
             return self.violation("returned-deferred-never-fired", "every X has fired but the returned Deferred has not")
         if len(self.fired) != 1:
@@ -518,6 +654,9 @@ def check_run(ctx, ns, h, fl, plan, order, cancel_at, info):
                 key = "await-observed-none-instead-of-result"
             elif want and want[0] == "x" and n[2] == "x":
                 key = "await-observed-different-exception"
+            if n[1] in h.awaited_in_relay and (n[2], n[3]) == ("v", ("raw", n[1])):
+                # X_k was awaited while running its own callback and the function got that callback's INPUT
+                key = AWAIT_RUNNING if h.aflav.get(n[1]) == "c" else "yield-of-running-deferred-sees-intermediate-result"
             a.violation(key, "the function observed something else than the awaited Deferred's outcome", await_index=n[1], expected=want, observed=(n[2], n[3]))
             return a
     # (2) synchronous replay
@@ -563,7 +702,7 @@ def run_program(ctx, i, rng):
     ctx.count("programs")
     for fl in ("gen", "coro"):
         base = check_run(ctx, ns, h, fl, plan, order, [], info)
-        if base.bad:
+        if base.bad and base.bad != AWAIT_RUNNING:   # (classified defect of Deferred.__await__: the other runs still count)
             return
         if fl == "gen" and len(src) < 5000 and h.next_k >= 2:
             ctx.sample({"source": src, "plan": plan, "order": order, "notes": list(h.notes), "final": base.final()}, limit=2)
@@ -571,15 +710,17 @@ def run_program(ctx, i, rng):
         ctx.maxi("suspension_points", S)
         for p in range(S):
             one = check_run(ctx, ns, h, fl, plan, order, [p], info)
+            if one.bad == AWAIT_RUNNING:
+                continue
             if one.bad:
                 return
             if one.suspensions > p + 1:
                 q = rng.randint(p + 1, one.suspensions - 1) if rng.random() < 0.8 else p
                 two = check_run(ctx, ns, h, fl, plan, order, [p, q], info)
-                if two.bad:
+                if two.bad and two.bad != AWAIT_RUNNING:
                     return
         late = check_run(ctx, ns, h, fl, plan, order, [M + 1], info)
-        if late.bad:
+        if late.bad and late.bad != AWAIT_RUNNING:
             return
 
 
